@@ -373,7 +373,7 @@ def replay(pid, rec):
     mod = __import__(f'vf.props.{pid.lower()}', fromlist=['x'])
     for sched in ([{'kind': 'replay', 'trace': c['trace']}] if c.get('trace') else []) + [c['schedule']]:
         try:
-            mod.check_session(scenario, sched, None, **{k: c[k] for k in ('fault', 'schedule2', 'attempts', 'policy', 'real_sockets') if k in c})
+            mod.check_session(scenario, sched, None, **{k: c[k] for k in ('fault', 'schedule2', 'attempts', 'policy', 'real_sockets', 'real_process') if k in c})
         except Violation as v:
             return v
     return None
